@@ -4,6 +4,7 @@ import (
 	"fmt"
 	"go/constant"
 	"go/token"
+	"go/types"
 	"strings"
 
 	"golang.org/x/tools/go/ssa"
@@ -100,6 +101,27 @@ func checkC14(c *Ctx) {
 						if g, ok := fa.X.(*ssa.Global); ok {
 							bad = "writes package-level variable " + g.Name()
 						}
+					}
+				}
+				if bad == "" {
+					// any other use of a package-level variable: only immutable ones are allowed
+					// (error sentinels; basic-typed variables never written outside init)
+					for _, op := range in.Operands(nil) {
+						g, ok := (*op).(*ssa.Global)
+						if !ok || g.Pkg == nil || !isRepoPath(g.Pkg.Pkg.Path()) {
+							continue
+						}
+						if st, isSt := in.(*ssa.Store); isSt && st.Addr == ssa.Value(g) {
+							continue // reported above
+						}
+						elem := g.Type().Underlying().(*types.Pointer).Elem()
+						if types.Implements(elem, errorIface) || types.Implements(types.NewPointer(elem), errorIface) && isErrName(g.Name()) {
+							continue
+						}
+						if _, basic := elem.Underlying().(*types.Basic); basic && !writtenOutsideInit(c.P, g) {
+							continue
+						}
+						bad = "uses package-level variable " + g.Name() + " (" + typeShort(elem) + ", shared mutable state)"
 					}
 				}
 				if bad != "" {
@@ -325,4 +347,29 @@ func paramIndex(f *ssa.Function, p *ssa.Parameter) int {
 		}
 	}
 	return 0
+}
+
+var errorIface = types.Universe.Lookup("error").Type().Underlying().(*types.Interface)
+
+func isErrName(n string) bool { return strings.HasPrefix(n, "Err") || strings.HasPrefix(n, "err") }
+
+// writtenOutsideInit: some repo function other than a package initialiser stores to g (directly or to a field of it).
+func writtenOutsideInit(p *Program, g *ssa.Global) bool {
+	w := false
+	for _, f := range p.RepoFuncs() {
+		if f.Name() == "init" || strings.HasPrefix(f.Name(), "init#") {
+			continue
+		}
+		eachInstr(f, func(in ssa.Instruction) {
+			if st, ok := in.(*ssa.Store); ok {
+				if st.Addr == ssa.Value(g) {
+					w = true
+				}
+				if fa, ok := st.Addr.(*ssa.FieldAddr); ok && fa.X == ssa.Value(g) {
+					w = true
+				}
+			}
+		})
+	}
+	return w
 }
